@@ -19,13 +19,39 @@ REPAIRED = 7      # cfg bits of the model variant that follows the current (repa
 def env():
     e = dict(os.environ); e["OMP_NUM_THREADS"] = "1"; e["OPENBLAS_NUM_THREADS"] = "1"; return e
 
-def hrun(hb, lines, cwd, timeout=300):
+PERTURB = []      # (machine, case dict, description, output under MALLOC_PERTURB_=165, under 90) for one-process runs that differ
+
+def hrun_p(hb, line, cwd, machine, case, timeout=300):
+    """one-process history under two malloc perturbation bytes (glibc MALLOC_PERTURB_: every allocated and freed block is
+    filled with a non-zero pattern, so nothing can rely on fresh memory being zero, nor on what a freed block contained);
+    the fresh-process references run without it.  Returns the first output; a difference between the two is recorded."""
+    a = hrun(hb, [line], cwd, timeout, perturb=165)[0]
+    b = hrun(hb, [line], cwd, timeout, perturb=90)[0]
+    if a != b: PERTURB.append((machine, case, a, b))
+    return a
+
+def report_perturb(ck, describe):
+    for machine, case, a, b in PERTURB:
+        ia, ib = ints(a) or [], ints(b) or []
+        k = next((i for i in range(min(len(ia), len(ib))) if ia[i] != ib[i]), min(len(ia), len(ib)))
+        where = ""
+        if machine == "compute":
+            where = (" = shared operand '%s' as built in that process" % OPERANDS[k - 1]) if 1 <= k <= len(OPERANDS) else (" = result/operand mask of computation %d (%s)" % ((k - 1 - len(OPERANDS)) // 2, COMPUTE[case["ops"][(k - 1 - len(OPERANDS)) // 2]]) if k > len(OPERANDS) and (k - 1 - len(OPERANDS)) // 2 < len(case["ops"]) else "")
+        ck.violation("%s: result depends on the content of uninitialised memory (%s)%s" % (machine, describe(machine, case)[:160], where),
+                     "the one-process history [%s] gives different outputs under MALLOC_PERTURB_=165 and MALLOC_PERTURB_=90 (first difference at output field %d%s: %s vs %s): some result is read from memory that was never written"
+                     % (describe(machine, case), k, where, ia[k:k + 3] if ia else a, ib[k:k + 3] if ib else b),
+                     dict(kind="object-history", machine=machine, cases=[case], replay_cmd="./check C17 --replay <this file>"))
+    del PERTURB[:]
+
+def hrun(hb, lines, cwd, timeout=300, perturb=None):
     """one harness process over the case lines, run inside cwd; returns the output lines ('CRASH rc' appended on abnormal end)"""
     os.makedirs(cwd, exist_ok=True)
     cf = os.path.join(cwd, "cases.in")
     with open(cf, "w") as fh: fh.write("\n".join(lines) + "\n")
+    e_ = env()
+    if perturb is not None: e_["MALLOC_PERTURB_"] = str(perturb)
     try:
-        p = subprocess.run([hb, "cases.in"], cwd=cwd, env=env(), stdout=subprocess.PIPE, stderr=subprocess.PIPE, timeout=timeout)
+        p = subprocess.run([hb, "cases.in"], cwd=cwd, env=e_, stdout=subprocess.PIPE, stderr=subprocess.PIPE, timeout=timeout)
         out = p.stdout.decode(errors="replace").split("\n"); rc = p.returncode
     except subprocess.TimeoutExpired as te:
         out = (te.stdout or b"").decode(errors="replace").split("\n"); rc = -999
@@ -194,7 +220,7 @@ def run_io_sequences(ck, hb, W, seqs, tag):
         d = os.path.join(base, "a%d" % i, "d"); os.makedirs(d, exist_ok=True)
         lk = os.path.join(base, "a%d" % i, "pool")
         if not os.path.exists(lk): os.symlink(W.pool, lk)
-        o = ints(hrun(hb, [io_harness_case(fs, ops, 1)], d)[0])
+        o = ints(hrun_p(hb, io_harness_case(fs, ops, 1), d, "io", dict(fs=fs, ops=[list(x) for x in ops])))
         fin = io_dirstate(W, d)
         e = os.path.join(base, "a%d" % i, "e"); os.makedirs(e, exist_ok=True)
         fr = []
@@ -284,6 +310,7 @@ def check_io(ck, hb, quick, replay):
             ck.violation("io: model and implementation differ (%s)" % OPN[ops[q][0]],
                          "the IO state model (coq/Maths/IOState.v, repaired variant) predicts %s for operation %d but the library gives %s (final files model=%s impl=%s); no history dependence was observed for this sequence (fresh-process runs agree with the one-process run), so this is a broken tie, not a failing input of the property; history: %s"
                          % (ci[q][0], q, ci[q][1], r["model_fs"], r["final"], describe_io(fs, ops, W)), rp, found_input=False)
+    report_perturb(ck, lambda m, c: describe_io(c["fs"], [tuple(o) for o in c["ops"]], W))
     stats["reader_probes"] = W.nprobes; stats["contents"] = len(W.bytes); stats["ios_order"] = [FMT[i] for i in W.ios]
     return stats, seqs
 
@@ -493,7 +520,7 @@ def check_objects(ck, hb, quick, replay):
     def lone(j):
         k, h = lseqs[j]
         d = os.path.join(wd, "l%d" % j); os.makedirs(d, exist_ok=True); shutil.copy(os.path.join(wd, "catalog.txt"), d)
-        r = hrun(hb, ["c17 " + " ".join(map(str, [5, k, len(h)] + h))], d)[0]; shutil.rmtree(d, ignore_errors=True); return r
+        r = hrun_p(hb, "c17 " + " ".join(map(str, [5, k, len(h)] + h)), d, "linop", dict(machine="linop", kind=k, ops=list(h))); shutil.rmtree(d, ignore_errors=True); return r
     with ThreadPoolExecutor(8) as ex:
         lho = list(ex.map(lone, range(len(lseqs))))
     for (k, h), m, o in zip(lseqs, lmo, lho):
@@ -514,7 +541,10 @@ def check_objects(ck, hb, quick, replay):
     hl = ["c17 " + " ".join(map(str, [2, len(h)] + flat(h))) for h in gseqs] + ["c17 " + " ".join(map(str, [3, ge, len(h)] + h)) for ge, h in sseqs] + ["c17 " + " ".join(map(str, [4, len(h)] + flat(h))) for h in mseqs]
     def one(k):
         d = os.path.join(wd, "q%d" % k); os.makedirs(d, exist_ok=True); shutil.copy(os.path.join(wd, "catalog.txt"), d)
-        r = hrun(hb, [hl[k]], d, timeout=900)[0]; shutil.rmtree(d, ignore_errors=True); return r
+        if k < len(gseqs): mc = ("geometry", dict(machine="geometry", ops=[list(x) for x in gseqs[k]]))
+        elif k < len(gseqs) + len(sseqs): mc = ("sensors", dict(machine="sensors", geom=sseqs[k - len(gseqs)][0], ops=list(sseqs[k - len(gseqs)][1])))
+        else: mc = ("mesh", dict(machine="mesh", ops=[list(x) for x in mseqs[k - len(gseqs) - len(sseqs)]]))
+        r = hrun_p(hb, hl[k], d, mc[0], mc[1], timeout=900); shutil.rmtree(d, ignore_errors=True); return r
     with ThreadPoolExecutor(8) as ex:
         ho = list(ex.map(one, range(len(hl))))
     hg, hs, hm = ho[:len(gcases)], ho[len(gcases):len(gcases) + len(scases)], ho[len(gcases) + len(scases):]
@@ -534,7 +564,7 @@ def check_objects(ck, hb, quick, replay):
         cmo = core.run_model(["c17 " + " ".join(map(str, [6, len(init)] + init + [len(fresh)] + fresh + [len(h)] + h)) for h in cseqs])
         def cone(j):
             d = os.path.join(wd, "c%d" % j); os.makedirs(d, exist_ok=True); shutil.copy(os.path.join(wd, "catalog.txt"), d)
-            r = hrun(hb, ["c17 " + " ".join(map(str, [6, len(cseqs[j])] + cseqs[j]))], d, timeout=900)[0]; shutil.rmtree(d, ignore_errors=True); return r
+            r = hrun_p(hb, "c17 " + " ".join(map(str, [6, len(cseqs[j])] + cseqs[j])), d, "compute", dict(machine="compute", ops=list(cseqs[j])), timeout=900); shutil.rmtree(d, ignore_errors=True); return r
         with ThreadPoolExecutor(8) as ex:
             cho = list(ex.map(cone, range(len(cseqs))))
         for h, m, o in zip(cseqs, cmo, cho):
@@ -632,6 +662,13 @@ def check_objects(ck, hb, quick, replay):
                              "load cortex.1.tri after Head1.tri into the same stand-alone Mesh: geometry().vertices().size()=%d and first triangle %s, a fresh Mesh gives %d and %s (the private geometry is never cleared)" % (ht[q][1], ht[q][7:10], it[q][1], it[q][7:10]), rp)
             else:
                 stats["mesh"]["explained_by_known_finding"] += 1
+    def dsc(m, c):
+        if m == "compute": return "; ".join(COMPUTE[k] for k in c["ops"])
+        if m == "geometry": return "; ".join(("load " + cat["G"][i][0]) if op == 0 else ["", "HeadMat", "DipSourceMat", "finalize()"][op] for op, i in c["ops"])
+        if m == "sensors": return "; ".join("load " + cat["S"][i][0] for i in c["ops"])
+        if m == "mesh": return "; ".join(("load " + cat["M"][i][0]) if op == 0 else "SurfSourceMat(Head1,mesh)" for op, i in c["ops"])
+        return "; ".join("%s::load %s" % (KIND[c["kind"]], cat["L"][i][0]) for i in c["ops"])
+    report_perturb(ck, dsc)
     stats["catalog"] = dict(linop=[l for l, _ in cat["L"]], geometry=[l for l, _ in cat["G"]], sensors=[l for l, _ in cat["S"]], mesh=[l for l, _ in cat["M"]])
     return stats
 
@@ -682,5 +719,6 @@ def main(replay=None):
     ck.assumptions += ["the outcome of a codec on given file bytes is a function of (bytes, format, kind) - measured per content in fresh processes, modelled by C07",
                        "MathsIO::name() of the registered formats is reset by the harness before every operation to observe which codec was selected",
                        "private members of Geometry/Sensors/Mesh observed through #define private public in the harness TU",
-                       "HeadMat / SurfSourceMat compared by a 50-bit fingerprint of the result's bits, OMP_NUM_THREADS=1"]
+                       "HeadMat / SurfSourceMat compared by a 50-bit fingerprint of the result's bits, OMP_NUM_THREADS=1",
+                       "one-process histories run under glibc MALLOC_PERTURB_=165 and =90 (allocated and freed blocks filled with a non-zero pattern); fresh-process references run without"]
     return ck.finish()
